@@ -115,7 +115,10 @@ void reporter_finish_test(TestReporter *reporter, const char *filename, int line
 
     if (status == FINISH_TEST_SKIPPED) {
         (*reporter->show_skip)(reporter, filename, line);
-    } else if (status == FINISH_NOTIFICATION_NOT_RECEIVED) {
+    } else if (status == FINISH_NOTIFICATION_NOT_RECEIVED
+               || (status == FINISH_NOTIFICATION_RECEIVED && message != NULL)) {
+        /* A message means the test's process was killed by a signal. That can happen
+           after the completion notification was sent, e.g. in an exit handler */
         va_list no_arguments;
         memset(&no_arguments, 0, sizeof(va_list));
         reporter->exceptions++;
